@@ -3,6 +3,7 @@ package walk
 import (
 	"fmt"
 	"sort"
+	"strings"
 )
 
 // Finding is one observation of CheckDisjoint that contradicts "no shared mutable memory".
@@ -45,8 +46,15 @@ func CheckDisjoint(a, b interface{}, snapA, snapB func() string) ([]Finding, Sta
 		out = append(out, Finding{"shared-memory", s, fmt.Sprintf("%s region %s of the first value (%d bytes) and %s region %s of the second value (%d bytes) occupy the same memory",
 			o.A.Kind, o.A.Path, o.A.Size, o.B.Kind, o.B.Path, o.B.Size)})
 	}
+	sharedA := sites
+	outerB := OutermostSites(Overlaps(gb, ga))
+	sharedB := make([]string, 0, len(outerB))
+	for s := range outerB {
+		sharedB = append(sharedB, s)
+	}
+	sort.Strings(sharedB)
 	dumpA0, dumpB0 := Dump(a, false), Dump(b, false)
-	side := func(name string, g *Graph, own interface{}, own0 string, other func() string) {
+	side := func(name string, g *Graph, own interface{}, own0 string, other func() string, shared []string) {
 		before := other()
 		for i := range g.Locs {
 			l := &g.Locs[i]
@@ -60,14 +68,23 @@ func CheckDisjoint(a, b interface{}, snapA, snapB func() string) ([]Finding, Sta
 				st.EffectiveSites[l.Site]++
 			}
 			if after != before {
-				out = append(out, Finding{"mutation-visible", l.Site, fmt.Sprintf("changing %s location %s of the %s in place changed what is observable through the other value: %s",
+				// a location inside a region already reported as shared is filed under that region's site:
+				// one defect, one site (a visible mutation outside every shared region keeps its own site)
+				at := l.Site
+				for _, t := range shared {
+					if strings.HasPrefix(at, t) {
+						at = t
+						break
+					}
+				}
+				out = append(out, Finding{"mutation-visible", at, fmt.Sprintf("changing %s location %s of the %s in place changed what is observable through the other value: %s",
 					l.Kind, l.Path, name, firstDiff(before, after))})
 				before = other()
 			}
 		}
 	}
-	side("first value", ga, a, dumpA0, snapB)
-	side("second value", gb, b, dumpB0, snapA)
+	side("first value", ga, a, dumpA0, snapB, sharedA)
+	side("second value", gb, b, dumpB0, snapA, sharedB)
 	if Dump(a, false) != dumpA0 || Dump(b, false) != dumpB0 {
 		panic("walk.CheckDisjoint: a mutation was not undone (engine error)")
 	}
